@@ -1,5 +1,6 @@
 //! ommx-verif-harness: runs the real SDK on cases read from stdin (one JSON array
 //! `[op, input]` per line) and prints one JSON result tree per line.
+#![allow(dead_code)]
 mod conv;
 mod ops;
 mod tree;
